@@ -165,6 +165,8 @@ def observe(bench, doc, as_int, name):
         tr['loads'].append(ld)
         det['loads'].append(rep)
         for role, other in others.items():
+            if role == 'reordered' and other == Y:
+                continue                         # this document has no keyed list with two entries: same file
             # "legacy" side of these pairs = the converter's in-memory YANG output written as is
             ld, rep = bench.load_pair(kind, Y, other, role=role)
             tr['loads'].append(ld)
@@ -522,6 +524,8 @@ def run(chk):
         bench.close()
     chk.assume('claimed domain: numbers with no more fraction digits than the YANG model declares for their key and at most '
                '10 significant digits (IEEE-754 formatting corner cases and rounding of longer fractions are not decided)')
+    chk.assume('lists that are present are non-empty (YANG cannot tell an empty list from an absent one: a RamanFiber with '
+               '"raman_pumps": [] loads from the legacy file but not from the YANG file written by dump_data)')
     chk.assume('one per-degree equalisation type per degree (YANG choice); N / M present (number or null) in every '
                'effective-freq-slot; edfa-config, response and API wrapper documents are not among the five kinds of C18')
     chk.assume('the libyang context (schema parsing only) is memoised by the harness; every document is still parsed and '
